@@ -43,7 +43,7 @@ static void apply(ArrayBuilder& b, const Sx& c) {
   if (h == "begintuple") { b.begintuple(to_i64(c[1])); return; }
   if (h == "index") { b.index(to_i64(c[1])); return; }
   if (h == "beginrecord") {
-    if (c[1].is("none")) b.beginrecord(); else b.beginrecord_check(c[1].a);
+    if (c[1].is("none")) b.beginrecord(); else if (c[1].is("%empty")) b.beginrecord_check(""); else b.beginrecord_check(c[1].a);
     return;
   }
   if (h == "field") { b.field_check(c[1].a); return; }
